@@ -1,15 +1,12 @@
-package main
+package drv
 
 import (
 	"fmt"
 	"sync"
 
-	"verifharness/drv"
-
 	spb "github.com/openconfig/gribi/v1/proto/service"
 )
 
-func init() { cmds["c05conc"] = runC05Conc }
 
 // c05ConcCase: Sessions negotiated sessions announce their ids at the same time (Rounds fresh servers); afterwards
 // the election id must be the 128-bit maximum, the primary one of its announcers, and a late lower
@@ -17,17 +14,17 @@ func init() { cmds["c05conc"] = runC05Conc }
 type c05ConcCase struct {
 	Seed     int64      `json:"seed"`
 	Sessions int        `json:"sessions"`
-	IDs      []drv.U128 `json:"ids"` // Sessions x 2 announcements (session i announces IDs[2i] then IDs[2i+1])
+	IDs      []U128 `json:"ids"` // Sessions x 2 announcements (session i announces IDs[2i] then IDs[2i+1])
 	Rounds   int        `json:"rounds"`
 }
 
 func runC05ConcCase(c c05ConcCase) (string, error) {
 	for round := 0; round < c.Rounds; round++ {
-		d, err := drv.NewServer()
+		d, err := NewServer()
 		if err != nil {
 			return "", err
 		}
-		sess := make([]*drv.Sess, c.Sessions)
+		sess := make([]*Sess, c.Sessions)
 		for i := range sess {
 			s, err := d.Connect()
 			if err != nil {
@@ -38,7 +35,7 @@ func runC05ConcCase(c c05ConcCase) (string, error) {
 			}
 			sess[i] = s
 		}
-		var max drv.U128
+		var max U128
 		for _, id := range c.IDs {
 			if max.Less(id) {
 				max = id
@@ -65,11 +62,11 @@ func runC05ConcCase(c c05ConcCase) (string, error) {
 					case len(rs) != 1 || rs[0].GetElectionId() == nil:
 						p = fmt.Sprintf("announcement of %v not answered with an election id", id)
 					default:
-						got := drv.U128{Hi: rs[0].GetElectionId().High, Lo: rs[0].GetElectionId().Low}
+						got := U128{Hi: rs[0].GetElectionId().High, Lo: rs[0].GetElectionId().Low}
 						if got.Less(id) || max.Less(got) {
 							p = fmt.Sprintf("announcement of %v answered %v (maximum of all announcements %v)", id, got, max)
 						}
-						if prev != nil && got.Less(drv.U128{Hi: prev.High, Lo: prev.Low}) {
+						if prev != nil && got.Less(U128{Hi: prev.High, Lo: prev.Low}) {
 							p = fmt.Sprintf("reported id decreased on one stream: %v then %v", prev, got)
 						}
 						prev = rs[0].GetElectionId()
@@ -104,7 +101,7 @@ func runC05ConcCase(c c05ConcCase) (string, error) {
 				problem = fmt.Sprintf("after concurrent announcements the primary is a session that did not announce the maximum %v", max)
 			default:
 				// a late lower announcement is told the maximum
-				low := drv.U128{Lo: 1}
+				low := U128{Lo: 1}
 				if low != max {
 					rs, err := sess[0].SendN(&spb.ModifyRequest{ElectionId: low.Proto()}, 1)
 					if err != nil || len(rs) != 1 || rs[0].GetElectionId().GetHigh() != max.Hi || rs[0].GetElectionId().GetLow() != max.Lo {
@@ -123,28 +120,33 @@ func runC05ConcCase(c c05ConcCase) (string, error) {
 	return "", nil
 }
 
-func runC05Conc(args []string) error {
-	f := drv.NewFlags("c05conc")
+// ElectConcCmd is the sub-command "<name>": concurrent election announcements on fresh servers.
+func ElectConcCmd(name, prop string) Cmd {
+	return func(args []string) error { return runElectConc(name, prop, args) }
+}
+
+func runElectConc(name, prop string, args []string) error {
+	f := NewFlags(name)
 	if err := f.Parse(args); err != nil {
 		return err
 	}
 	var cases []c05ConcCase
 	if *f.Replay != "" {
-		if err := drv.ReadJSON(*f.Replay, &cases); err != nil {
+		if err := ReadJSON(*f.Replay, &cases); err != nil {
 			return err
 		}
 	} else {
-		r := drv.NewRng(*f.Seed)
+		r := NewRng(*f.Seed)
 		for i := 0; i < *f.N; i++ {
 			c := c05ConcCase{Seed: *f.Seed*1000 + int64(i), Sessions: 2 + r.Intn(5), Rounds: 40}
 			for k := 0; k < 2*c.Sessions; k++ {
-				id := genID(r)
+				id := GenElectionID(r)
 				for id.IsZero() {
-					id = genID(r)
+					id = GenElectionID(r)
 				}
 				if k%2 == 1 && r.Chance(1, 2) { // the second announcement of a session: just above / below its first
 					b := c.IDs[k-1]
-					id = drv.Pick(r, drv.U128{Hi: b.Hi, Lo: b.Lo + 1}, drv.U128{Hi: b.Hi + 1, Lo: 0}, b)
+					id = Pick(r, U128{Hi: b.Hi, Lo: b.Lo + 1}, U128{Hi: b.Hi + 1, Lo: 0}, b)
 					if id.IsZero() {
 						id = b
 					}
@@ -154,7 +156,7 @@ func runC05Conc(args []string) error {
 			cases = append(cases, c)
 		}
 	}
-	rep := drv.Report{Property: "C05", Seed: *f.Seed, Shard: drv.ShardSize, Stats: map[string]int{}, Cases: len(cases),
+	rep := Report{Property: prop, Seed: *f.Seed, Shard: ShardSize, Stats: map[string]int{}, Cases: len(cases),
 		Rule: "concurrent announcements: 2-6 negotiated sessions each announce two ids (boundary lattice, random, just above/below) at the same moment, 40 fresh servers per case with the ids rotated over the sessions; every response within [own id, maximum] and non-decreasing per stream; afterwards election id = 128-bit maximum, primary announced it, a late lower announcement is told the maximum; non-trivial = at least two distinct ids"}
 	for i, c := range cases {
 		p, err := runC05ConcCase(c)
@@ -162,11 +164,11 @@ func runC05Conc(args []string) error {
 			return err
 		}
 		if p != "" {
-			rep.Violations = append(rep.Violations, drv.Verdict{Case: i, Problem: p})
+			rep.Violations = append(rep.Violations, Verdict{Case: i, Problem: p})
 		}
 		rep.Stats["rounds"] += c.Rounds
 		rep.Stats[fmt.Sprintf("sessions_%d", c.Sessions)]++
-		ids := map[drv.U128]bool{}
+		ids := map[U128]bool{}
 		for _, id := range c.IDs {
 			ids[id] = true
 		}
@@ -174,12 +176,23 @@ func runC05Conc(args []string) error {
 			rep.Nontrivial++
 		}
 	}
-	if err := drv.WriteJSON(*f.Out+"/cases.json", cases); err != nil {
+	if err := WriteJSON(*f.Out+"/cases.json", cases); err != nil {
 		return err
 	}
 	// the Coq side of the concurrent clause is C11_election_max_any_order; there is no per-case model run
-	if err := drv.WriteCasesV(*f.Out, "From Coq Require Import List NArith.\nImport ListNotations.", "N", "(fun _ : list N => @nil N)", nil); err != nil {
+	if err := WriteCasesV(*f.Out, "From Coq Require Import List NArith.\nImport ListNotations.", "N", "(fun _ : list N => @nil N)", nil); err != nil {
 		return err
 	}
-	return drv.WriteJSON(*f.Out+"/impl.json", rep)
+	return WriteJSON(*f.Out+"/impl.json", rep)
+}
+
+// GenElectionID draws an election id: zero (invalid), random words, or the boundary lattice.
+func GenElectionID(r *Rng) U128 {
+	switch r.Intn(10) {
+	case 0:
+		return U128{} // zero: invalid
+	case 1, 2:
+		return U128{Hi: r.Uint64(), Lo: r.Uint64()}
+	}
+	return U128{Hi: Pick(r, BoundaryWords...), Lo: Pick(r, BoundaryWords...)}
 }
